@@ -138,19 +138,28 @@ func fromLimbs(ws []*sym.Term) (*sym.Term, bool) {
 // loadRing loads the ring element behind a *[4]uint64-like argument: an abstract
 // cell, or four concrete limbs.
 func loadRing(ex *absint.Exec, c *absint.CallCtx, i int, srt sym.Sort) *sym.Term {
-	p := ptrArg(ex, c, i)
-	if p == nil {
+	return loadRingVal(ex, c, c.St.Resolve(c.Args[i]), i, srt)
+}
+
+func loadRingVal(ex *absint.Exec, c *absint.CallCtx, v absint.Val, i int, srt sym.Sort) *sym.Term {
+	if ch, ok := v.(*absint.Choice); ok {
+		// a merged / loop-carried pointer: the element behind whichever address it holds
+		return sym.Ite(ch.Cond, loadRingVal(ex, c, c.St.Resolve(ch.A), i, srt), loadRingVal(ex, c, c.St.Resolve(ch.B), i, srt))
+	}
+	p, ok := v.(*absint.Ptr)
+	if !ok {
+		ex.Failf("%s: argument %d is not a pointer: %s", c.Name, i, absint.ValString(v))
 		return sym.Fresh(srt, "bad", 0)
 	}
 	if ex.IsLeaf(c.St, p) {
 		return loadAbsPtr(ex, c, p, srt)
 	}
 	ws := ex.ReadWords(c.St, p, 4)
-	v, ok := fromLimbs(ws)
-	if !ok {
+	iv, isInt := fromLimbs(ws)
+	if !isInt {
 		return sym.App(srt, "of_limbs:"+srt.String(), ws...)
 	}
-	return IntToRing(srt, v)
+	return IntToRing(srt, iv)
 }
 
 // IntToRing converts a 256-bit integer term to a ring element (value mod modulus).
